@@ -398,6 +398,44 @@ fn c03_file_ranges_two_files_running_offset() {
     kani::cover!(true, "reached");
 }
 
+fn file_ranges_three_files(pl: u64) {
+    // lengths structurally below 2^16
+    let l0: u64 = (kani::any::<u32>() & 0xFFFF) as u64;
+    let l1: u64 = (kani::any::<u32>() & 0xFFFF) as u64;
+    let l2: u64 = (kani::any::<u32>() & 0xFFFF) as u64;
+    let files = vec![
+        File { length: l0, path: String::from("a") },
+        File { length: l1, path: String::from("b") },
+        File { length: l2, path: String::from("c") },
+    ];
+    let m = mk_metainfo(pl, vec![[0u8; HASH_SIZE]], files, "t");
+    let r = m.file_piece_ranges();
+    assert!(r.len() == 3, "one range per listed file, in order");
+    let p = pl as usize;
+    let (a, b, c) = (l0 as usize, l1 as usize, l2 as usize);
+    assert!(r[0].1.file_index == 0 && r[0].1.byte_index == 0, "first file starts at offset 0");
+    assert!(r[0].2.file_index == a / p && r[0].2.byte_index == a % p, "first file ends at its length");
+    assert!(r[1].1.file_index == a / p && r[1].1.byte_index == a % p, "second file starts where the first ends");
+    assert!(r[1].2.file_index == (a + b) / p && r[1].2.byte_index == (a + b) % p, "second file ends at the sum of the first two lengths");
+    assert!(r[2].1.file_index == (a + b) / p && r[2].1.byte_index == (a + b) % p, "third file starts where the second ends (the running offset accumulates over all earlier files)");
+    assert!(r[2].2.file_index == (a + b + c) / p && r[2].2.byte_index == (a + b + c) % p, "third file ends at the sum of all lengths");
+    std::mem::forget(r);
+    std::mem::forget(m);
+}
+
+// @prop C03
+// @fn Metainfo::file_piece_ranges, Metainfo::piece_pos
+// @bound three files with every triple of lengths in 0..2^16 (zero-length files, several files inside one piece, files ending on a piece boundary included), piece lengths 4 and 16384
+// @outside more than three files; lengths >= 2^16; symbolic piece lengths (DESIGN 3.12); the extractor that consumes the ranges (3.10)
+// @desc the running byte offset accumulates over ALL earlier files: the third file starts at len0+len1 and ends at len0+len1+len2, each mapped to (offset / piece_length, offset % piece_length)
+#[kani::proof]
+#[kani::unwind(5)]
+fn c03_file_ranges_three_files_running_offset() {
+    file_ranges_three_files(4);
+    file_ranges_three_files(16384);
+    kani::cover!(true, "reached");
+}
+
 // ---------------------------------------------------------------------------------------------
 // C04: where would the extractor create files?  The paths are decided in file_piece_ranges.
 
